@@ -11,7 +11,9 @@ is about.
 Besides, the property is stated directly on python's observations (no model involved):
 `$match` = find(filter), `$sort` = find().sort(), `$skip/$limit` = slices (rejected outside the
 rules), `$count` = count_documents (no document over no input), inclusion/exclusion `$project` =
-the find projection, `$unwind` = the flat map with its index, `$group` = partition + fold of the
+the find projection, `$unwind` = the flat map with its index, a leading `$bucket` = the Lean oracle
+`Spec.Pipe.specBucketStage` (driver command c03b; inside `bucketReasons = []` exactly, outside it a
+deviation must carry a listed finding or a scope class), `$group` = partition + fold of the
 eight accumulators (names refused up front, also over no documents), `$lookup` = join, a
 multi-entry `$addFields` = the merge of its entries, constants under dotted names = the deep write
 (into every item of an array), a rejected stage = an error, and the prefix law aggregate(p ++ q) = aggregate(q) over a collection
@@ -67,7 +69,13 @@ ASSUMPTIONS = [
     'oracle Spec.Pipe.specPipelineV only — $group / $lookup / $addFields / $replaceRoot / $facet '
     'are tied to their oracle (Spec/PipelineExt.lean) by theorems about the model '
     '(group_eq_spec_partial, …) and judged on python by the direct partition / fold / join '
-    'references of this module',
+    'references of this module; a $bucket stage at the head of a pipeline is run alone and '
+    'compared with its Lean oracle Spec.Pipe.specBucketStage itself (driver command c03b): '
+    'exactly inside bucketReasons = [] (theorem bucket_eq_spec_partial), outside it a deviation '
+    'must carry one of the listed findings bucketcrosstype / bucketboolnum / bucketdefaulttype or '
+    'a scope class (bucketexprstrict, keyscope, the accumulator scope classes, expr:*); the '
+    'findings on which the oracle is silent because MongoDB refuses the stage (bucketdupbounds, '
+    'bucketdefaultinside, bucketgroupbyconst) are replayed from known_findings.json',
     'a pipeline holding a stage MongoDB rejects (not a one-field document; $limit / $skip / $count '
     'argument outside the rules) must raise: judged on python directly and through the oracle\'s '
     'verdict `!Rejected`',
@@ -755,6 +763,72 @@ def prefix_law(ctx, case, db, full, rng, stats):
                       rank=200 + len(repr(p)) + len(repr(case['docs'])))
 
 
+# -- $bucket against the Lean oracle Spec.Pipe.specBucketStage -------------------------------------
+# reasons of Spec.Pipe.bucketReasons that are scope limits: nothing is claimed there
+BUCKET_SCOPE = ('nospec', 'bucketexprstrict', 'keyscope', 'sumfloat', 'avginexact', 'minmaxscope',
+                'setscope', 'datenorm', 'nondoc')
+
+
+def bucket_case(c):
+    """the `$bucket` stage a case starts with, run alone on the case's collection: (driver line,
+    python's answer) — None when the case does not start with one"""
+    op, opts = first_stage(c)
+    if op != '$bucket' or not isinstance(opts, dict):
+        return None
+    p1 = [c['pipeline'][0]]
+    oids = wire.Oids()
+    try:
+        line = 'c03b %s %s %s' % (wire.encs({'c': c['docs'], 'other': c['other']}, oids),
+                                  wire.encs('c', oids), wire.encs(p1, oids))
+        return line, show(agg(c['_db'].c, p1), oids), p1
+    except (wire.Unencodable, RecursionError):
+        return None
+
+
+def bucket_oracle(ctx, todo, stats):
+    """python's `$bucket` = the oracle `specBucketStage` (theorem bucket_eq_spec_partial ties the
+    model to it) inside `bucketReasons = []`; outside, a deviation must carry a listed finding
+    (bucketcrosstype, bucketboolnum, bucketdefaulttype) or a scope class"""
+    if not todo:
+        return
+    out = wire.run_driver([t[1] for t in todo])
+    for (c, _line, py1, p1), o in zip(todo, out):
+        parts = [x.strip() for x in o.split('|')]
+        spec = parts[0]
+        reasons = parts[1].split() if len(parts) > 1 else []
+        if spec.startswith('?'):
+            stats['bucket: oracle silent'] += 1
+            for r in reasons:
+                stats['bucket: oracle silent, ' + r] += 1
+            continue
+        if not reasons:
+            stats['bucket=oracle (inside the domain)'] += 1
+            if norm(py1) != spec:
+                ctx.violation(render(dict(c, pipeline=p1), kind='$bucket does not answer what '
+                                     'MongoDB defines (Spec.Pipe.specBucketStage: every document in '
+                                     'the bucket b_i <= groupBy < b_i+1, else in default; one '
+                                     'document per non-empty bucket in _id order with its '
+                                     'accumulators) inside the domain bucketReasons = []',
+                                     py=py1, spec=spec), rank=120 + len(repr(c['docs'])))
+            continue
+        if norm(py1) == spec:
+            stats['bucket=oracle (outside the domain, agrees)'] += 1
+            continue
+        labels = [r for r in reasons if r in KNOWN_DIRECT]
+        if labels:
+            for r in labels:
+                stats['bucket deviates: ' + r] += 1
+                ctx.known_seen[r] = ctx.known_seen.get(r, 0) + 1
+        elif any(r in BUCKET_SCOPE or r.startswith('expr:') for r in reasons):
+            stats['bucket differs under scope classes only'] += 1
+            for r in reasons:
+                stats['bucket differs under scope class ' + r] += 1
+        else:
+            ctx.violation(render(dict(c, pipeline=p1), kind='$bucket deviates from what MongoDB '
+                                 'defines in an unlisted class', py=py1, spec=spec,
+                                 reasons=reasons), rank=130 + len(repr(c['docs'])))
+
+
 # -- verdicts --------------------------------------------------------------------------------------
 class Judge(object):
     def __init__(self, ctx):
@@ -841,6 +915,7 @@ def run_cases(ctx, cases, judge, rng, stats, oracles=True):
         lines.append(line)
         kept.append(c)
     out = wire.run_driver(lines)
+    buckets = []
     for c, o in zip(kept, out):
         parts = [x.strip() for x in o.split('|')]
         impl, spec = parts[0], parts[1]
@@ -852,8 +927,13 @@ def run_cases(ctx, cases, judge, rng, stats, oracles=True):
                 prefix_law(ctx, c, c['_db'], c['_full'], rng, stats)
             except RecursionError:
                 stats['oracle skipped: cyclic value'] += 1
+        if oracles:
+            b = bucket_case(c)
+            if b is not None:
+                buckets.append((c, b[0], b[1], b[2]))
         c.pop('_db', None)
         c.pop('_full', None)
+    bucket_oracle(ctx, buckets, stats)
     return kept
 
 
